@@ -102,6 +102,15 @@ func (m *roster) getTasks() Tasks {
 	return tasks
 }
 
+// retain keeps only the tasks accepted by the filter. Unlike updateTasks(filtered(...)), the list is read and
+// replaced within one critical section, so that concurrent appends are never lost.
+func (m *roster) retain(filter Filter) {
+	m.mu.Lock()
+	defer m.mu.Unlock()
+
+	m.tasks = m.tasks.Filtered(filter)
+}
+
 func (m *roster) updateTasks(tasks Tasks) {
 	m.mu.Lock()
 	defer m.mu.Unlock()
